@@ -493,7 +493,10 @@ impl<B: Base> Fx<B> {
 struct Plan<B: Base> {
     /// (universe, tag, every element lies in a proper subfield, frobenius powers 0..=kmax or none)
     unary: Vec<(Uni<B>, String, bool, Option<usize>)>,
-    pairs: Vec<(Uni<B>, Uni<B>, String)>,
+    /// (left, right, tag, also run every operator impl variant of ff/src/fields/arithmetic.rs)
+    pairs: Vec<(Uni<B>, Uni<B>, String, bool)>,
+    /// direct oracle x^(p^k) by successive p-th powers up to this k; beyond, x^(p^k) = x^(p^(k mod deg))
+    frob_direct_max: usize,
     sparse_left: Uni<B>,
     sparse_left_small: Option<Uni<B>>,
     coef_all: Option<Vec<B::C>>,
@@ -608,11 +611,19 @@ fn unary<B: Base, F: Field<BasePrimeField = B::F>>(ctx: &mut Ctx, fx: &Fx<B>, pl
             // frobenius
             if let Some(kmax) = kmax {
                 let mut w = x;
+                let mut ws: Vec<El<B>> = Vec::with_capacity(deg);
                 for k in 0..=*kmax {
-                    if k > 0 {
+                    if k > plan.frob_direct_max {
+                        // the tower is (validated to be) a field of p^deg elements: x -> x^p has period deg
+                        w = ws[k % deg];
+                    } else if k > 0 {
                         w = if linear { fx.frob_lin(&x, k) } else { t.pow(&w, &p) };
                     }
+                    if k < deg {
+                        ws.push(w);
+                    }
                     loc.class_if(k >= deg, "frob:power>=degree");
+                    loc.class_if(k > 2 * deg, "frob:power>2*degree");
                     cmp(loc, t, "frobenius_map", &xl.frobenius_map(k), &w, || format!("{} k={k} (want x^(p^k))", sx()));
                     let mut y = xl;
                     y.frobenius_map_in_place(k);
@@ -628,11 +639,77 @@ fn unary<B: Base, F: Field<BasePrimeField = B::F>>(ctx: &mut Ctx, fx: &Fx<B>, pl
     }
 }
 
-fn pairs<B: Base, F: Field<BasePrimeField = B::F>>(ctx: &mut Ctx, fx: &Fx<B>, plan: &Plan<B>) {
+/// The operator impls with a reference on the left (`&a + b`, `&a - &b`, `&a / &mut b`, ...: separate bodies in
+/// ff/src/fields/arithmetic.rs) are not named by the `Field` bounds: one forwarding trait for both templates.
+trait RefLhs: Field {
+    /// [&x op y, &x op &y, &x op &mut y] for op in + - * and (only when asked: y is non-zero) /
+    fn ref_lhs(&self, y: &Self, with_div: bool) -> Vec<(&'static str, [Self; 3])>;
+}
+macro_rules! impl_ref_lhs {
+    ($T:ident, $C:ident) => {
+        impl<P: $C> RefLhs for $T<P> {
+            fn ref_lhs(&self, y: &Self, with_div: bool) -> Vec<(&'static str, [Self; 3])> {
+                let x = self;
+                let mut ym = *y;
+                let mut v = vec![("add", [x + *y, x + y, x + &mut ym]), ("sub", [x - *y, x - y, x - &mut ym]), ("mul", [x * *y, x * y, x * &mut ym])];
+                if with_div {
+                    v.push(("div", [x / *y, x / y, x / &mut ym]));
+                }
+                v
+            }
+        }
+    };
+}
+impl_ref_lhs!(QuadExtField, QuadExtConfig);
+impl_ref_lhs!(CubicExtField, CubicExtConfig);
+
+/// every remaining way of writing `x op y` must return what the by-value operator returned (`r`, compared with the oracle by the caller)
+fn op_variants<F: Field + RefLhs>(loc: &mut Loc, xl: &F, yl: &F, y_is_zero: bool, r: &[Option<F>; 4], s: &dyn Fn() -> String) {
+    let (xl, yl) = (*xl, *yl);
+    let mut ym = yl;
+    let mut bad: Vec<String> = Vec::new();
+    let mut note = |ok: bool, what: &str| {
+        if !ok {
+            bad.push(what.to_string())
+        }
+    };
+    // by-value LHS
+    let (mut a1, mut a2) = (xl, xl);
+    a1 += yl;
+    a2 += &mut ym;
+    note(Some(xl + &yl) == r[0] && Some(xl + &mut ym) == r[0] && Some(a1) == r[0] && Some(a2) == r[0], "a + &b | a + &mut b | a += b | a += &mut b");
+    let (mut a1, mut a2) = (xl, xl);
+    a1 -= yl;
+    a2 -= &mut ym;
+    note(Some(xl - &yl) == r[1] && Some(xl - &mut ym) == r[1] && Some(a1) == r[1] && Some(a2) == r[1], "a - &b | a - &mut b | a -= b | a -= &mut b");
+    let (mut a1, mut a2) = (xl, xl);
+    a1 *= yl;
+    a2 *= &mut ym;
+    note(Some(xl * &yl) == r[2] && Some(xl * &mut ym) == r[2] && Some(a1) == r[2] && Some(a2) == r[2], "a * &b | a * &mut b | a *= b | a *= &mut b");
+    if !y_is_zero {
+        let (mut a1, mut a2) = (xl, xl);
+        a1 /= yl;
+        a2 /= &mut ym;
+        note(Some(xl / &yl) == r[3] && Some(xl / &mut ym) == r[3] && Some(a1) == r[3] && Some(a2) == r[3], "a / &b | a / &mut b | a /= b | a /= &mut b");
+    }
+    // reference LHS
+    for (k, (op, v)) in xl.ref_lhs(&yl, !y_is_zero).into_iter().enumerate() {
+        note(v.iter().all(|g| Some(*g) == r[k]), &format!("&a {op} b | &a {op} &b | &a {op} &mut b"));
+    }
+    // Sum / Product over owned and borrowed items
+    let (s1, s2): (F, F) = ([xl, yl].into_iter().sum(), [xl, yl].iter().sum());
+    note(Some(s1) == r[0] && Some(s2) == r[0], "Sum<Self> | Sum<&Self> of [a, b]");
+    let (p1, p2): (F, F) = ([xl, yl].into_iter().product(), [xl, yl].iter().product());
+    note(Some(p1) == r[2] && Some(p2) == r[2], "Product<Self> | Product<&Self> of [a, b]");
+    drop(note);
+    loc.check_at("operator_variants", bad.is_empty(), || format!("{}: differ from the by-value operator: {}", s(), bad.join("; ")));
+}
+
+fn pairs<B: Base, F: Field<BasePrimeField = B::F> + RefLhs>(ctx: &mut Ctx, fx: &Fx<B>, plan: &Plan<B>) {
     let t = &fx.t;
     let deg = t.deg;
     let top_k = t.top().k;
-    for (left, right, tag) in &plan.pairs {
+    for (left, right, tag, variants) in &plan.pairs {
         let (nl, nr) = (left.len(), right.len());
         ctx.sweep(&format!("{}/pairs/{tag}", fx.name), nl * nr, |i, loc| {
             let [ia, ib] = unrank(i, [nl, nr]);
@@ -649,18 +726,20 @@ fn pairs<B: Base, F: Field<BasePrimeField = B::F>>(ctx: &mut Ctx, fx: &Fx<B>, pl
             }
             loc.class_if(t.is_zero(&x) || t.is_zero(&y), "mul:zero_operand");
             loc.class_if(x == y, "mul:x==y");
+            // results of the by-value operators, for the operator-variant comparison below
+            let mut byval: [Option<F>; 4] = [Some(xl + yl), Some(xl - yl), Some(xl * yl), None];
             let want = t.add(&x, &y);
-            cmp(loc, t, "add", &(xl + yl), &want, || s());
+            cmp(loc, t, "add", &byval[0].unwrap(), &want, || s());
             let mut a = xl;
             a += &yl;
             cmp(loc, t, "add_assign", &a, &want, || s());
             let want = t.sub(&x, &y);
-            cmp(loc, t, "sub", &(xl - yl), &want, || s());
+            cmp(loc, t, "sub", &byval[1].unwrap(), &want, || s());
             let mut a = xl;
             a -= &yl;
             cmp(loc, t, "sub_assign", &a, &want, || s());
             let want = t.mul(&x, &y);
-            cmp(loc, t, "mul", &(xl * yl), &want, || s());
+            cmp(loc, t, "mul", &byval[2].unwrap(), &want, || s());
             let mut a = xl;
             a *= &yl;
             cmp(loc, t, "mul_assign", &a, &want, || s());
@@ -672,6 +751,11 @@ fn pairs<B: Base, F: Field<BasePrimeField = B::F>>(ctx: &mut Ctx, fx: &Fx<B>, pl
                 let mut a = xl;
                 a /= &yl;
                 loc.check_at("div_assign", a == d, || s());
+                byval[3] = Some(d);
+            }
+            if *variants {
+                loc.class("operator_variants");
+                op_variants(loc, &xl, &yl, t.is_zero(&y), &byval, &s);
             }
         });
     }
@@ -796,17 +880,25 @@ fn cyclo<B: Base, F: Field<BasePrimeField = B::F> + CyclotomicMultSubgroup>(ctx:
                 loc.class("cyclo:plain_bits");
             }
             loc.class_if(e.len() > 1 && *e.last().unwrap() == 0, "cyclo:exp_leading_zero_limb");
+            loc.class_if(e.len() >= 4, "cyclo:exp_4_or_more_limbs");
             cmp(loc, t, "cyclotomic_exp", &cl.cyclotomic_exp(e), &want, || format!("{} e={e:x?}", s()));
             let mut y = cl;
             y.cyclotomic_exp_in_place(e);
             cmp(loc, t, "cyclotomic_exp_in_place", &y, &want, || format!("{} e={e:x?}", s()));
         }
     });
-    // zero: documented None / unchanged
+    // zero is outside the subgroup.  The rustdoc of cyclotomic_inverse[_in_place] promises None for zero; nothing is
+    // promised about the other methods on zero: they are called (a panic is reported by the engine), the value is a metric
     ctx.sweep(&format!("{}/cyclotomic/zero", fx.name), 1, |_, loc| {
         let z = F::zero();
-        loc.check_at("cyclotomic_inverse(0)", z.cyclotomic_inverse().is_none(), || format!("{} cyclotomic_inverse(0) must be None", fx.name));
-        loc.check_at("cyclotomic_exp(0)", z.cyclotomic_exp([5u64]).is_zero(), || format!("{} cyclotomic_exp of zero", fx.name));
+        let mut zz = z;
+        loc.check_at("cyclotomic_inverse(0)", z.cyclotomic_inverse().is_none() && zz.cyclotomic_inverse_in_place().is_none(), || format!("{} cyclotomic_inverse(0) must be None (documented)", fx.name));
+        let r = z.cyclotomic_exp([5u64]);
+        let mut zz = z;
+        zz.cyclotomic_exp_in_place([5u64]);
+        let _ = z.cyclotomic_square();
+        loc.class_if(r.is_zero() && zz.is_zero(), "observed:cyclotomic_exp(0)_is_zero");
+        loc.op();
     });
     // outside the subgroup nothing is claimed: the calls are made, differences are only counted
     let out = &plan.cyclo_out;
@@ -1205,11 +1297,11 @@ fn toy_setup<F: PrimeField>(ctx: &mut Ctx, name: &str, p: u64, consts: Vec<(usiz
     }
     // pairs
     let pmax: f64 = ctx.t(4e7, 1.2e9);
-    let mut pr: Vec<(Uni<Zp<F>>, Uni<Zp<F>>, String)> = Vec::new();
+    let mut pr: Vec<(Uni<Zp<F>>, Uni<Zp<F>>, String, bool)> = Vec::new();
     if (q as f64) * (q as f64) <= pmax {
-        pr.push((whole.clone(), whole.clone(), "all_pairs".into()));
+        pr.push((whole.clone(), whole.clone(), "all_pairs".into(), q <= 400));
     } else {
-        pr.push((s_uni.clone(), s_uni.clone(), "structured_pairs".into()));
+        pr.push((s_uni.clone(), s_uni.clone(), "structured_pairs".into(), false));
         if q <= ctx.t(250_000, 6_000_000) {
             let mut s8 = vec![t.zero(), one, gamma, to_el(t, &vec![g; deg]), t.neg(&one)];
             let mut mixed = t.zero();
@@ -1222,8 +1314,8 @@ fn toy_setup<F: PrimeField>(ctx: &mut Ctx, name: &str, p: u64, consts: Vec<(usiz
             s8.push(genel);
             s8.push(subfield(divisors[divisors.len() - 1], 3)[2]);
             let s8 = Uni::list(dedup_els(t, s8));
-            pr.push((whole.clone(), s8.clone(), "all_x_8".into()));
-            pr.push((s8, whole.clone(), "8_x_all".into()));
+            pr.push((whole.clone(), s8.clone(), "all_x_8".into(), false));
+            pr.push((s8, whole.clone(), "8_x_all".into(), false));
         }
     }
     let sparse_left = if q <= 250_000 { whole.clone() } else { s_uni.clone() };
@@ -1234,6 +1326,11 @@ fn toy_setup<F: PrimeField>(ctx: &mut Ctx, name: &str, p: u64, consts: Vec<(usiz
         }
     }
     let sparse_left_small = Some(Uni::list(dedup_els(t, sl)));
+    if q > 400 {
+        // every operator impl variant on (gamma + dev<=1 balls around 0..0 and g..g)^2
+        let v = sparse_left_small.clone().unwrap();
+        pr.push((v.clone(), v, "operator_variants".into(), true));
+    }
     let scalars: Vec<u64> = if (q as f64) * (p as f64) <= 5e7 {
         all_letters.clone()
     } else {
@@ -1287,6 +1384,7 @@ fn toy_setup<F: PrimeField>(ctx: &mut Ctx, name: &str, p: u64, consts: Vec<(usiz
         exps,
         sparse_budget: (ctx.t(1.2e8, 6e9) / (deg as f64).powf(1.5)) as u64,
         linear_frob_from: 50_000,
+        frob_direct_max: usize::MAX,
     };
     Some((fx, plan))
 }
@@ -1350,23 +1448,28 @@ fn shipped_setup<F: PrimeField>(ctx: &mut Ctx, name: &str, consts: Vec<(usize, V
     }
     fsub.push(mixed);
     let fsub = dedup_els(t, fsub);
-    let kmax = ctx.t(deg + 1, 2 * deg);
+    // powers 0..=2*deg+1: by successive p-th powers up to deg+1 (quick) / 2*deg (thorough), the rest through the period deg
+    let kmax = 2 * deg + 1;
+    let frob_direct_max = ctx.t(deg + 1, 2 * deg);
     let mut un = vec![(Uni::list(u.clone()), format!("dev{du}"), false, None), (Uni::list(fsub.clone()), "frobenius_subset".into(), false, Some(kmax))];
     // elements of the embedded base field (coordinate subspace) are in the dev sets; label comes from `label`
     let _ = &mut un;
     let mut pr = Vec::new();
+    let s12: Vec<El<Lp<F>>> = fsub.iter().step_by((fsub.len() / 12).max(1)).copied().chain(std::iter::once(mixed)).collect();
+    let s12 = Uni::list(dedup_els(t, s12));
     if ctx.quick() {
-        pr.push((Uni::list(d1.clone()), Uni::list(d1.clone()), "dev1_x_dev1".into()));
-        let s12: Vec<El<Lp<F>>> = fsub.iter().step_by((fsub.len() / 12).max(1)).copied().chain(std::iter::once(mixed)).collect();
-        let s12 = Uni::list(dedup_els(t, s12));
-        pr.push((Uni::list(u.clone()), s12.clone(), format!("dev{du}_x_12")));
-        pr.push((s12, Uni::list(u.clone()), format!("12_x_dev{du}")));
+        pr.push((Uni::list(d1.clone()), Uni::list(d1.clone()), "dev1_x_dev1".into(), false));
+        pr.push((Uni::list(u.clone()), s12.clone(), format!("dev{du}_x_12"), false));
+        pr.push((s12.clone(), Uni::list(u.clone()), format!("12_x_dev{du}"), false));
     } else if deg <= 6 {
-        pr.push((Uni::list(d2.clone()), Uni::list(d2.clone()), "dev2_x_dev2".into()));
+        pr.push((Uni::list(d2.clone()), Uni::list(d2.clone()), "dev2_x_dev2".into(), false));
     } else {
-        pr.push((Uni::list(d2.clone()), Uni::list(d1.clone()), "dev2_x_dev1".into()));
-        pr.push((Uni::list(d1.clone()), Uni::list(d2.clone()), "dev1_x_dev2".into()));
+        pr.push((Uni::list(d2.clone()), Uni::list(d1.clone()), "dev2_x_dev1".into(), false));
+        pr.push((Uni::list(d1.clone()), Uni::list(d2.clone()), "dev1_x_dev2".into(), false));
     }
+    // every operator impl variant on dev<=1 x 12 and 12 x dev<=1
+    pr.push((Uni::list(d1.clone()), s12.clone(), "operator_variants/dev1_x_12".into(), true));
+    pr.push((s12, Uni::list(d1.clone()), "operator_variants/12_x_dev1".into(), true));
     // cyclotomic subgroup members x^((p^deg - 1)/Phi_deg(p)) for structured x
     let pp = |k: u32| num_traits::pow(p.clone(), k as usize);
     let phi: BigUint = match deg {
@@ -1406,7 +1509,22 @@ fn shipped_setup<F: PrimeField>(ctx: &mut Ctx, name: &str, consts: Vec<(usize, V
     let cyc = dedup_els(t, cyc);
     ctx.validate(cyc.len() >= 4, &format!("{name}: fewer than 4 distinct cyclotomic elements"));
     let cyclo_out: Vec<El<Lp<F>>> = xs.iter().filter(|x| !t.is_zero(x)).zip(computed.iter()).filter(|(_, c)| c.2).map(|(x, _)| *x).take(4).collect();
-    let exps: Vec<Vec<u64>> = vec![vec![0], vec![1], vec![2], vec![3], vec![7], vec![GENERIC64], vec![u64::MAX], vec![3, 0], vec![u64::MAX, 1], vec![0, 1]];
+    let exps: Vec<Vec<u64>> = vec![
+        vec![0],
+        vec![1],
+        vec![2],
+        vec![3],
+        vec![7],
+        vec![GENERIC64],
+        vec![u64::MAX],
+        vec![3, 0],
+        vec![u64::MAX, 1],
+        vec![0, 1],
+        // 3 limbs with a zero high limb, 4 limbs, 6 limbs (wider than one Fp of most towers; zero limbs inside)
+        vec![GENERIC64, u64::MAX, 0],
+        vec![GENERIC64, 1, u64::MAX, GENERIC64 >> 1],
+        vec![u64::MAX, 0, GENERIC64, 1, 0, (1 << 63) | 5],
+    ];
     let coef_small = if ctx.quick() { vec![F::ZERO, F::ONE, g] } else { vec![F::ZERO, F::ONE, -F::ONE, g] };
     ctx.bound(&format!("{name}.alphabet"), format!("deg={deg} letters={} unary=dev<={du} ({} elements) frobenius_subset={} k<={kmax} cyclotomic={}", letters.len(), u.len(), fsub.len(), cyc.len()));
     let plan = Plan {
@@ -1423,12 +1541,13 @@ fn shipped_setup<F: PrimeField>(ctx: &mut Ctx, name: &str, consts: Vec<(usize, V
         exps,
         sparse_budget: ctx.t(150_000, 3_000_000),
         linear_frob_from: u64::MAX,
+        frob_direct_max,
     };
     Some((fx, plan))
 }
 
 // ------------------------------------------------------------------------------------------------ per-kind runners
-fn common<B: Base, F: Field<BasePrimeField = B::F> + CyclotomicMultSubgroup>(ctx: &mut Ctx, fx: &Fx<B>, plan: &Plan<B>) {
+fn common<B: Base, F: Field<BasePrimeField = B::F> + CyclotomicMultSubgroup + RefLhs>(ctx: &mut Ctx, fx: &Fx<B>, plan: &Plan<B>) {
     unary::<B, F>(ctx, fx, plan);
     pairs::<B, F>(ctx, fx, plan);
     conversions::<B, F>(ctx, fx, plan);
@@ -1895,6 +2014,9 @@ fn main() {
         "cyclo:plain_bits",
         "cyclo:granger_scott_square",
         "cyclo:exp_leading_zero_limb",
+        "cyclo:exp_4_or_more_limbs",
+        "frob:power>2*degree",
+        "operator_variants",
         "inverse:zero",
         "sparse:operand_with_zero_coefficient",
         "fp2.mul_assign_by_fp",
@@ -1925,7 +2047,9 @@ fn main() {
     ctx.assume("cyclotomic claims are made only on the subgroup of order Phi_deg(p); outside it the calls are made and differences are reported as a metric");
     ctx.bound("toy_towers", TOWER_TABLE.iter().map(|r| r.0).collect::<Vec<_>>().join(","));
     ctx.bound("shipped_towers", SHIPPED_NAMES.join(","));
-    ctx.bound("frobenius_powers", "toys: k = 0..=2*deg on every element of every unary universe; shipped: k = 0..=deg+1 (quick) / 2*deg (thorough) on a 64 (quick) / 128 (thorough) element subset");
+    ctx.bound("frobenius_powers", "toys: k = 0..=2*deg on every element of every unary universe; shipped: k = 0..=2*deg+1 on a 64 (quick) / 128 (thorough) element subset, oracle by successive p-th powers up to k = deg+1 (quick) / 2*deg (thorough) and through the period deg beyond");
+    ctx.bound("operator_variants", "a op &b, a op &mut b, a op= b, a op= &mut b, &a op b, &a op &b, &a op &mut b (op in + - * /), Sum/Product over owned and borrowed items: toys on all pairs (|F| <= 400) or (gamma + dev<=1 balls)^2, shipped on dev<=1 x 12 and 12 x dev<=1");
+    ctx.assume("for k > deg+1 (quick) / 2*deg (thorough) the shipped-tower Frobenius oracle uses x^(p^k) = x^(p^(k mod deg)): the tower is validated to be a field of p^deg elements; the directly computed powers cover more than one full period");
 
     algebra_mc::toy_fp2_towers!(t2, &mut ctx);
     algebra_mc::toy_fp3_towers!(t3, &mut ctx);
